@@ -43,6 +43,17 @@ UNDERSTOOD = [
 # functions whose results no property speaks about (text for logs / humans, NFA pictures used by unit tests only)
 IRRELEVANT = r"as std::fmt::(Display|Debug)>::fmt$|internal::dot::(nfa_render|multi_pattern_nfa_render|multi_render|render_to)\b|::trace_\w+$|ScannerImpl::log_compiled_automata_as_dot$|scanner_impl_rx::"
 
+# Second closed set: an iterator advanced by hand (`it.next()`, `nth`, `next_back`, `advance_by`, ..) anywhere but at the driving
+# position of a loop (a block of a loop that every trip through the loop passes).  `let mut it = v.iter(); it.next(); for x in it`
+# skips an element without any adaptor (second systematic probe, LM_MODE=preconsume: 80 of 86 such mutants went unnoticed).
+ADV_RX = r"iter::Iterator>::(next|nth|advance_by|next_chunk)$|DoubleEndedIterator>::(next_back|nth_back|advance_back_by)$|Peekable<.*>::(next_if|next_if_eq)"
+ADV_BASELINE = [
+    (r"FindMatchesImpl::<..>::set_offset$", "next_back", "C09.a (see above)"),
+    (r"FindMatchesImpl::<..>::peek_n$", "next", "C11.b/d: the private cursor of the peek skips one char after a failed attempt (inside the loop, on the no-match branch)"),
+    (r"with_positions::WithPositions<I> as std::iter::Iterator>::next$", "next", "C09.e: one token taken from the wrapped iterator per call"),
+    (r"find_matches::FindMatches<'_> as std::iter::Iterator>::next$", "next", "forwarding"),
+]
+
 AREAS = {   # rule id -> functions it covers
     "C05.e": r"CompiledDfa::(find_from|priority_of|pattern)$|CompiledLookahead::satisfies_lookahead$",
     "C02.j": r"internal::(nfa|multi_pattern_nfa|parser|compiled_scanner_mode|scanner_impl|scanner_cache|compiled_lookahead)::|CompiledDfa as std::convert::From|CompiledDfa::(try_from_patterns|add_lookahead)$|scanner_builder::|scanner_mode::|pattern::|scanner::Scanner",
@@ -74,6 +85,44 @@ def analyze(ctx, rules):
                 continue            # the first n elements of an endless generator: n elements, nothing is dropped
             for o, _ in (owners(F, fn) or [(fn, None)]):
                 sites.setdefault((o.name, kind), []).append(fn.loc(bb))
+    adv = {}
+    for fn in F.fns.values():
+        if is_derived(fn):
+            continue
+        loops = fn.natural_loops()
+        backs = fn.back_edges()
+        pv = None
+        for bb, t in fn.calls(ADV_RX):
+            m = re.search(ADV_RX, M.call_name(t))
+            kind = m.group(1) or m.group(2) or m.group(3)
+            if t.get("exp_outer") in ("debug_assert!", "trace!", "debug!", "info!", "warn!", "error!", "assert!"):
+                continue
+            driver = False
+            for h, body in loops.items():
+                if bb in body and all(fn.dominates(bb, a) for a, b in backs if b == h):
+                    driver = True
+            if driver:
+                continue
+            # advancing a *copy* of an iterator does not take anything away from the original
+            if pv is None:
+                pv = M.Prov(fn)
+            try:
+                e_ = pv.operand(t["args"][0]) if t["args"] else None
+                if e_ is not None and any(re.search(r"clone::Clone>::clone$", c_[1]) for c_ in M.expr_calls(e_)):
+                    continue
+            except Exception:
+                pass
+            for o, _ in (owners(F, fn) or [(fn, None)]):
+                adv.setdefault((o.name, kind), []).append(fn.loc(bb))
+    for rule in rules:
+        area = AREAS[rule]
+        for (oname, kind), locs in sorted(adv.items()):
+            if not re.search(area, oname) or re.search(IRRELEVANT, oname):
+                continue
+            base = [w for rx, k, w in ADV_BASELINE if k == kind and re.search(rx, oname)]
+            ctx.ob(rule, "advance:%s:%s" % (M.short_name(oname), kind), bool(base),
+                   ("%s calls %s() outside the driving position of a loop: %s" % (M.short_name(oname), kind, base[0])) if base else
+                   "%s advances an iterator by hand (%s() at %s, not the call that drives a loop): elements are taken from a walk that must visit all of them, and no rule analyses this use" % (M.short_name(oname), kind, ", ".join(locs)), locs[0])
     for rule in rules:
         area = AREAS[rule]
         n = 0
